@@ -62,7 +62,7 @@ def gen_case(rng, i):
     elif kind == "member":
         c["behs"] = boundary_behaviours(rng, L, vs)[:7]
     elif kind == "empty":
-        shape = rng.choice(["feasible", "contradiction", "thin_infeasible", "thin_feasible", "cycle", "few_rows"])
+        shape = rng.choice(["feasible", "contradiction", "thin_infeasible", "thin_feasible", "cycle", "few_rows", "repeated_lhs"])
         if shape == "contradiction":
             r = rng.choice(L)
             c["L"] = L + [({v: -a for v, a in r[0].items()}, -r[1] - rng.choice([1, 2, 3]))]
@@ -70,6 +70,11 @@ def gen_case(rng, i):
             r = rng.choice(L)
             m = rng.choice([1, 2.0**-3, 2.0**-7, 2.0**-10])
             c["L"] = L + [({v: -a for v, a in r[0].items()}, -r[1] + (m if shape == "thin_feasible" else -m))]
+        elif shape == "repeated_lhs":
+            # the same left-hand side three times with different bounds: a loose copy first, the contradiction, the tight copy last
+            r = rng.choice(L)
+            c["L"] = [(dict(r[0]), r[1] + rng.randint(3, 6))] + L + [({v: -a for v, a in r[0].items()}, -r[1] + 1), (dict(r[0]), r[1] - rng.choice([2, 3]))]
+            c["keep_order"] = True
         elif shape == "cycle" and nv >= 2:
             a, b = vs[0], vs[1]
             c["L"] = [({a: 1, b: -1}, 0), ({b: 1, a: -1}, -rng.choice([1, 2]))] + (L if rng.random() < 0.5 else [])
@@ -77,7 +82,8 @@ def gen_case(rng, i):
             # infeasible with no more rows than variables (dependent contradictory rows)
             co, _ = gen.rterm_raw(rng, vs, nmax=min(3, nv))
             c["L"] = [(co, 1), ({v: -a for v, a in co.items()}, -2)]
-        rng.shuffle(c["L"])
+        if not c.pop("keep_order", False):
+            rng.shuffle(c["L"])
     else:
         Rr = [r for r in (comb(rng, L, rng.choice([0, 1])) for _ in range(2)) if r] or list(L)
         if rng.random() < 0.4:
